@@ -331,12 +331,38 @@ func (r *rw) exprSeams(b *ast.BlockStmt) {
 			if n.Op == token.ARROW {
 				r.rep.Unmodelled = append(r.rep.Unmodelled, "channel receive at "+r.where(n.Pos()))
 			}
+		case *ast.SelectorExpr:
+			if selection := r.info.Selections[n]; selection != nil {
+				if fn, ok := selection.Obj().(*types.Func); ok && fn.Pkg() != nil && fn.Pkg().Path() == "reflect" && (fn.Name() == "MapKeys" || fn.Name() == "MapRange" || fn.Name() == "Seq" || fn.Name() == "Seq2") {
+					if call, isCall := c.Parent().(*ast.CallExpr); !isCall || call.Fun != n {
+						r.rep.Unseamed = append(r.rep.Unseamed, "reflect "+fn.Name()+" used as a value at "+r.where(n.Pos()))
+					} else if fn.Name() == "Seq" || fn.Name() == "Seq2" {
+						r.rep.Unseamed = append(r.rep.Unseamed, "reflect "+fn.Name()+" iterator at "+r.where(n.Pos()))
+					}
+				}
+			}
 		case *ast.CallExpr:
 			sel, ok := n.Fun.(*ast.SelectorExpr)
 			if !ok {
 				return true
 			}
 			selection := r.info.Selections[sel]
+			if selection != nil && selection.Kind() == types.MethodExpr && len(n.Args) == 1 {
+				// method expression: reflect.Value.MapKeys(x)
+				if fn, ok := selection.Obj().(*types.Func); ok && fn.Pkg() != nil && fn.Pkg().Path() == "reflect" && isNamed(selection.Recv(), "reflect", "Value") {
+					switch fn.Name() {
+					case "MapKeys":
+						id := r.newSite(n.Pos(), false, false, "mapkeys")
+						r.rep.OrderSeams = append(r.rep.OrderSeams, "MapKeys (method expression) at "+r.where(n.Pos()))
+						c.Replace(simCall("MapKeys", n.Args[0], intLit(id)))
+					case "MapRange":
+						id := r.newSite(n.Pos(), false, false, "maprange")
+						r.rep.OrderSeams = append(r.rep.OrderSeams, "MapRange (method expression) at "+r.where(n.Pos()))
+						c.Replace(simCall("MapRange", n.Args[0], intLit(id)))
+					}
+				}
+				return true
+			}
 			if selection == nil || selection.Kind() != types.MethodVal {
 				return true
 			}
